@@ -162,6 +162,24 @@ class C02(Campaign):
             t.get(f) for t in prog["trans"] for f in ("orgroup", "devent", "msrc"))
         if plain and rnd.random() < 0.15:
             self.drive_a_subclass(rnd, sc)
+        if rnd.random() < 0.3:
+            # the caller passes keyword arguments NAMED like the values the engine injects (``sm.go(event=
+            # "cycle", source=...)``, expressible only through the bound event): they must neither decide
+            # which event-named callbacks run nor replace what callbacks are given
+            evs = sc["programs"][-1]["events"]
+            sids = [x["id"] for x in sc["programs"][-1]["states"]]
+            for o in sc["ops"]:
+                if o["op"] == "send" and o.get("event") in evs and o.get("style", "send") in ("send", "call") \
+                        and not o.get("kwargs") and rnd.random() < 0.4:
+                    kw = {}
+                    if rnd.random() < 0.7:
+                        kw["event"] = rnd.choice(evs)
+                    if rnd.random() < 0.4:
+                        kw[rnd.choice(["source", "target", "state"])] = rnd.choice(sids)
+                    if kw:
+                        o["kwargs"] = kw
+                        o["style"] = "call"
+                        sc["reserved_kw"] = True
         return sc
 
     @staticmethod
@@ -223,6 +241,9 @@ class C02(Campaign):
         m = ev["mstats"]
         return {"fault.virtual_delays": st.get("delays", 0), "probe.initial_activations": m.get("initial_execs", 0),
                 "probe.group_instances_matched": m.get("items", 0),
+                "fault.caller_kwargs_named_like_engine_values": sum(
+                    1 for o in sc["ops"] if o["op"] == "send" and set(o.get("kwargs") or {}) & {
+                        "event", "source", "target", "state"}),
                 "fault.async_guard_start_permutations": st.get("perms", 0)}
 
 
